@@ -256,7 +256,9 @@ def check_map(ctx, Canon, aliases, preferred, rng, steps):
         desc, f = ops(rng, None, span)
         pick = {v: rng.choice(spellings[v]) for v in VARS}
         hist.append((desc, {v: pick[v] for v in VARS if pick[v] != v}))
-        ra = do(f, m, lambda v: pick[v])
+        # (names sometimes arrive as NumPy strings - iterated out of an array of names, a DataFrame's columns: still those names)
+        as_np = rng.random() < 0.25
+        ra = do(f, m, (lambda v: np.str_(pick[v])) if as_np else (lambda v: pick[v]))
         rb = do(f, twin, lambda v: v)
         ctx.count('twin_steps_compared')
         ctx.seen('operations', desc[0])
